@@ -808,6 +808,67 @@ func worldPair() *World {
 	}
 }
 
+// The same language written in JSON syntax (C01 / C02 on *.tf.json buffers; most position queries answer with an
+// error value for JSON bodies, collection / symbols / validation decode them).
+const tfJSON = `{
+  "terraform": {
+    "required_version": ">= 1.0",
+    "limits": [3, "three"],
+    "meta": {"owner": "tëam-ü", "tier": 2, "refs": ["${var.region}", "${var.zones}"]},
+    "backend": {"s3": {"bucket": "state"}},
+    "required_providers": {"aws": {"source": "hashicorp/aws", "version": "~> 4.0"}}
+  },
+  "variable": {
+    "region": {"type": "string", "default": "eu-west-1", "description": "région"},
+    "zones": {"type": "list(string)", "default": ["a", "b"]}
+  },
+  "locals": {
+    "prefix": "app-${var.region}",
+    "count_x": "${max(1, 2, length(var.zones))}",
+    "tags": {"Name": "${local.prefix}", "Env": "${upper(var.region)}"},
+    "first": "${var.zones[0]}",
+    "cond": "${var.region == \"eu-west-1\" ? local.first : \"other\"}"
+  },
+  "provider": {"aws": {"alias": "west", "region": "${var.region}"}},
+  "data": {
+    "aws_ami": {"ubuntu": {"most_recent": true, "owners": ["099720109477"], "filter": [{"name": "name", "values": ["ubuntu-*"]}]}},
+    "remote_state": {"net": {"backend": "s3", "workspace": "${var.region}", "config": {"bucket": "tf-state"}}}
+  },
+  "resource": {
+    "aws_instance": {
+      "web": {
+        "provider": "${aws.west}",
+        "count": "${local.count_x}",
+        "ami": "${data.aws_ami.ubuntu.id}",
+        "instance_type": "t3.${count.index > 0 ? \"micro\" : \"small\"}",
+        "cpu_count": 2,
+        "tags": "${merge(local.tags, { Idx = count.index })}",
+        "security_ids": ["${var.region}", "sg-1"],
+        "ebs_block_device": [{"device_name": "/dev/sda", "size": 10}, {"device_name": "/dev/sdb"}],
+        "network": {"cidr": "10.0.0.0/16", "rule": {"port": 80}},
+        "volume": {"data": {"gb": 100}},
+        "dynamic": {"ebs_block_device": {"for_each": "${var.zones}", "content": {"device_name": "${ebs_block_device.value}"}}},
+        "lifecycle": {"create_before_destroy": true, "ignore_changes": ["tags"]}
+      }
+    }
+  },
+  "module": {"net": {"source": "./net", "cidr": "10.0.0.0/8", "count": 2}},
+  "output": {"ip": {"value": "${aws_instance.web[0].id}", "sensitive": false}}
+}
+`
+
+func worldTFJSON() *World {
+	return &World{
+		Name:   "tfjson",
+		Schema: tfSchema(),
+		Funcs:  stdFuncs(),
+		Docs: map[string]string{
+			"main.tf.json": tfJSON,
+			"vars.tf":      tfVars,
+		},
+	}
+}
+
 func worldTFBad() *World {
 	return &World{
 		Name:   "tfbad",
@@ -1148,7 +1209,7 @@ func modsWorld(unreadable bool) *World {
 }
 
 func allWorlds() []*World {
-	ws := []*World{kinds(), worldTF(), worldPair(), worldTFBad(), hostile(), modsWorld(false), modsWorld(true)}
+	ws := []*World{kinds(), worldTF(), worldPair(), worldTFJSON(), worldTFBad(), hostile(), modsWorld(false), modsWorld(true)}
 	for _, w := range ws {
 		for _, pw := range w.Peers {
 			if err := pw.Schema.Validate(); err != nil {
